@@ -5,7 +5,7 @@ From Coq Require Import String.
 From Coq Require Import List Arith Lia Bool ZArith Permutation.
 From NV.Lib Require Import RingMat SlotAlg NdIndex Harness.
 From NV.C01 Require Import Model Exec Proofs.
-From NV.C02 Require Import Model Proofs Proofs2 Proofs3 Proofs4.
+From NV.C02 Require Import Model Proofs Proofs2 Proofs3 Proofs4 ListData ListDataProofs.
 Import ListNotations.
 
 (* (1) Python slice semantics: list(range(n))[start:stop:step] is the arithmetic
@@ -214,3 +214,57 @@ Example demo_image_list_element :
             world r [1; 2] = Ok [1; 5; 7]%Z /\ world demo [1; 2; 2] = Ok [1; 5; 7; 7]%Z /\
             value r [1; 2] = value demo [1; 2; 2].
 Proof. eexists. split; [vm_compute; reflexivity|]. vm_compute. repeat split; reflexivity. Qed.
+
+(* ------------------------------------------------------------------ ImageList.get_list_data (round 6) *)
+(* An ImageList = the (shape, data) of its images IN LIST ORDER (after any re-ordering / replacement of entries).
+   (A) every value at the list position of the image it belongs to: the result has shape
+   img_shape[0:a] + (len(list),) + img_shape[a:] (a = the normalised axis) and its entry at
+   (idx[0:a], k, idx[a:]) is the value at idx of the k-th image OF THE LIST, for every list and every axis. *)
+Theorem get_list_data_entry :
+  forall imgs axis rs rd, lwf imgs -> get_list_data imgs axis = IOk (rs, rd) ->
+  exists a s0, norm_list_axis axis (S (length s0)) = Some a /\
+    (forall im, In im imgs -> fst im = s0) /\
+    rs = (firstn a s0 ++ length imgs :: skipn a s0)%list /\ length rd = prod rs /\
+    forall k idx, k < length imgs -> in_bounds s0 idx ->
+      in_bounds rs (firstn a idx ++ k :: skipn a idx)%list /\
+      nth (ravel rs (firstn a idx ++ k :: skipn a idx)%list) rd 0%Z = nth (ravel s0 idx) (snd (nth k imgs ([], []))) 0%Z.
+Proof. exact get_list_data_entry_lemma. Qed.
+Print Assumptions get_list_data_entry.
+
+(* (B) no value invented or duplicated by get_list_data: the flat positions of the result are in bijection with the
+   pairs (list position k, index into image k) - every position holds the value of exactly one such pair *)
+Theorem get_list_data_no_value_invented_or_duplicated :
+  forall imgs axis rs rd, lwf imgs -> get_list_data imgs axis = IOk (rs, rd) ->
+  exists a s0, norm_list_axis axis (S (length s0)) = Some a /\
+    (forall j, j < length rd -> exists k idx, k < length imgs /\ in_bounds s0 idx /\
+        j = ravel rs (firstn a idx ++ k :: skipn a idx)%list /\
+        nth j rd 0%Z = nth (ravel s0 idx) (snd (nth k imgs ([], []))) 0%Z) /\
+    (forall k idx k' idx', in_bounds s0 idx -> in_bounds s0 idx' -> k < length imgs -> k' < length imgs ->
+        ravel rs (firstn a idx ++ k :: skipn a idx)%list = ravel rs (firstn a idx' ++ k' :: skipn a idx')%list ->
+        k = k' /\ idx = idx').
+Proof. exact get_list_data_bijection_lemma. Qed.
+Print Assumptions get_list_data_no_value_invented_or_duplicated.
+
+(* (C) exactly the refusals of the code: an empty list (self.list[0]), an axis outside [-out_dim, out_dim);
+   every other call on images of one shape succeeds *)
+Theorem get_list_data_refusals :
+  forall imgs axis, lwf imgs ->
+  (imgs = [] -> get_list_data imgs axis = IErr IIndex) /\
+  (forall s0 d0 rest, imgs = (s0, d0) :: rest ->
+     ((axis >= Z.of_nat (S (length s0)))%Z \/ (axis < - Z.of_nat (S (length s0)))%Z) ->
+     get_list_data imgs axis = IErr IValue) /\
+  (forall s0 d0 rest, imgs = (s0, d0) :: rest -> (forall im, In im imgs -> fst im = s0) ->
+     (- Z.of_nat (S (length s0)) <= axis < Z.of_nat (S (length s0)))%Z ->
+     exists r, get_list_data imgs axis = IOk r).
+Proof. exact get_list_data_refusals_lemma. Qed.
+Print Assumptions get_list_data_refusals.
+
+(* non-vacuity: a REVERSED list of the three slices over the first axis of a 3x2 image, list dimension put last
+   (axis = -1): entry (j, k) is the value of list image k (= original slice 2-k) at j *)
+Example demo_get_list_data :
+  get_list_data [([2], [50; 60]%Z); ([2], [30; 40]%Z); ([2], [10; 20]%Z)] (-1)%Z = IOk ([2; 3], [50; 30; 10; 60; 40; 20]%Z) /\
+  get_list_data [([2], [50; 60]%Z); ([2], [30; 40]%Z); ([2], [10; 20]%Z)] 0%Z = IOk ([3; 2], [50; 60; 30; 40; 10; 20]%Z) /\
+  get_list_data [([2], [50; 60]%Z); ([2], [30; 40]%Z)] 2%Z = IErr IValue /\
+  get_list_data [([2], [50; 60]%Z); ([2], [30; 40]%Z)] (-3)%Z = IErr IValue /\
+  get_list_data [] 0%Z = IErr IIndex.
+Proof. vm_compute. repeat split; reflexivity. Qed.
